@@ -129,6 +129,19 @@ theorem spelling_accepted (k : Kind) (t : Str) (ht : t ∈ k.cls.formats) (ds : 
     parseObj k (fill t ds) = .ok (ofHex ds) :=
   parse_fill_digits k t ht ds hd hl
 
+/-- **case_irrelevant**: two spellings in the same template whose digits have the same values
+position by position (e.g. they differ only in letter case) construct the same value. -/
+theorem case_irrelevant (k : Kind) (t : Str) (ht : t ∈ k.cls.formats) (ds ds' : Str)
+    (hd : ∀ d ∈ ds, isHex d = true) (hd' : ∀ d ∈ ds', isHex d = true)
+    (hl : ds.length = 2 * k.nbytes) (hl' : ds'.length = 2 * k.nbytes)
+    (h : ds.map hexVal = ds'.map hexVal) :
+    parseObj k (fill t ds) = parseObj k (fill t ds') := by
+  have e : ∀ l : Str, ofHex l = (l.map hexVal).foldl (fun a x => a * 16 + x) 0 := by
+    intro l; simp [ofHex, List.foldl_map]
+  rw [spelling_accepted k t ht ds hd hl, spelling_accepted k t ht ds' hd' hl', e ds, e ds', h]
+
+example : "00aAbBcCdDfF".toList.map hexVal = "00AABBCCDDFF".toList.map hexVal := by decide
+
 -- mixed case, Cisco template; the same digits in another case denote the same value
 example : fill (tpl .mac 2) "00aAbBcCdDfF".toList = "00aA.bBcC.dDfF".toList ∧
     ofHex "00aAbBcCdDfF".toList = ofHex "00AABBCCDDFF".toList := by decide
